@@ -278,6 +278,18 @@ func c18Scenario(c *choice.Ctx, rep *report.R, k c18Kind, depth int) {
 						pc.m.Unlock()
 					}
 				}})
+				// ... or has exactly one id left: the next exchange on it is handed the last one, and is in flight on a connection that
+				// takes no further queries
+				menu = append(menu, event{name: "conn-one-id-left", fault: true, do: func() {
+					exhausted = true
+					for _, pc := range pcs {
+						pc.m.Lock()
+						if pc.nextQid < 65535 {
+							pc.nextQid = 65535
+						}
+						pc.m.Unlock()
+					}
+				}})
 			}
 		}
 		menu = append(menu, event{name: "advance2s", do: func() { hsleep(2 * time.Second) }})
